@@ -516,8 +516,9 @@ ex.extra_models.update({
     'compute_state_root': note('state_root', lambda c: _ok(Seq('u8', [Int(x, False) for x in ROOTC]), 'Result<[u8; 32], ChainError>')),
     'state_root::compute_state_root': note('state_root', lambda c: _ok(Seq('u8', [Int(x, False) for x in ROOTC]), 'Result<[u8; 32], ChainError>')),
     'TensorStateMachine::can_fast_path': lambda c: z3.Bool('fast_path'),
-    'TensorStateMachine::append_fast': note('append', sym_result('append', UNIT, 'Result<(), ChainError>')),
-    'TensorStateMachine::append_full': note('append', sym_result('append', UNIT, 'Result<(), ChainError>')),
+    # append_fast / append_full run from MIR (a change may move checks into them); the chain's own append is the stub
+    'Chain::append': note('append', sym_result('append', lambda c: Seq('u8', [Int(z3.BitVecVal(1, 8), False)] * 32), 'Result<[u8; 32], ChainError>')),
+    'chain::Chain::append': note('append', sym_result('append', lambda c: Seq('u8', [Int(z3.BitVecVal(1, 8), False)] * 32), 'Result<[u8; 32], ChainError>')),
     'TensorStateMachine::track_embedding': lambda c: UNIT, 'TensorStateMachine::apply_config_change': lambda c: UNIT,
     '<Block as Clone>::clone': lambda c: deref(c.st, c.args[0]),
 })
@@ -539,16 +540,20 @@ for entry in ('apply_block', 'apply_entry'):
     for r in res:
         wit = lambda m, entry=entry: {'chain_op': 'replica_apply', 'entry': entry, 'root_matches': all(mval(m, a) == mval(m, b) for a, b in zip(hroot, ROOTC)),
                                       'differs_at': [i for i, (a, b) in enumerate(zip(hroot, ROOTC)) if mval(m, a) != mval(m, b)][:4],
-                                      'append_ok': bool(mval(m, z3.Bool('append_ok')))}
+                                      'append_ok': bool(mval(m, z3.Bool('append_ok'))), 'fast_path': bool(mval(m, z3.Bool('fast_path')))}
         if r.status == 'panic':
             ck.require(ex, 'B5_replica_checks_the_state_root', r.pc, None, z3.BoolVal(False), wit, lambda m, w: 'replica-panic')
             continue
         if r.status != 'return':
             continue
         kinds = [x[0] for x in r.st.notes if x[0] in ('snapshot', 'apply', 'state_root', 'append', 'restore')]
-        if 'state_root' not in kinds:
+        if 'apply' not in kinds:
             continue
         replica_paths += 1
+        if r.retval.variant == 'Ok' and 'state_root' not in kinds:
+            ck.require(ex, 'B5_replica_checks_the_state_root', r.pc, None, z3.BoolVal(False), lambda m, entry=entry: {'chain_op': 'replica_apply', 'entry': entry, 'root_matches': False, 'differs_at': [0], 'append_ok': True, 'fast_path': bool(mval(m, z3.Bool('fast_path')))},
+                       lambda m, w: 'replica-accepts-without-recomputing-the-root')
+            continue
         same = eq32(hroot, ROOTC)
         if r.retval.variant == 'Ok':
             ck.require(ex, 'B5_replica_checks_the_state_root', r.pc, None, z3.And(same, z3.BoolVal('append' in kinds and 'restore' not in kinds)), wit, lambda m, w: 'replica-accepts-wrong-root')
